@@ -101,6 +101,9 @@ def run(ck):
         elif any(f[10 + len(ref):48]):
             ck.violation("bytes between the tag and offset 48 are not all zero", rep)
     object_reuse(ck, exe)
+    r = ck.rng
+    parallel_purity(ck, exe, ["hmac %d %d %s %s" % (HBUF, i % 3, rnd_bytes(r, 16).hex(), wv.hexs(rnd_bytes(r, r.choice([1, 20, 55, 64, 100, 300])))) for i in range(24)],
+                    "HMAC tags under different keys", iters=150, env=small_env(ck))
     if ck.tier == "thorough":
         production_scale(ck)     # 40 MiB and > 4 GiB with the production constants (props/filegen.py)
     return finish_proof(ck, rule="hmac: message lengths 0..139 (thorough 0..399) and around refill multiples x 3 hashes, random 16-byte keys; cmphmac: equal tag, one flipped bit in first/middle/last byte (thorough: every byte), junk after the tag; file level: tag field [10,48) of %d encrypted files vs Python hmac over [48,EOF). distinct = distinct case lines" % len(cases))
